@@ -3,3 +3,4 @@ import Driver.Ring
 import Driver.Kcp
 import Driver.Sess
 import Driver.Wait
+import Driver.Wire
